@@ -339,6 +339,16 @@ def replay_formula(rep, pid, name, cex, keyprefix='eval'):
     case['replay'] = {p: {'violates': v[0], 'what': v[1], 'driver_answer': v[2][:300]} for p, v in verdicts.items()}
     path = save_replay(pid, case)
     ok = [p for p, v in verdicts.items() if v[0]]
+    if not ok:
+        # second attempt: the formula evaluated twice in its environment (history: the second answer must be the same)
+        line2 = formula_line(case, 'evaltwice')
+        ans = driver_run([line2], 'dev', timeout=20)[0]
+        v2 = judge_formula(case, ans)
+        if v2[0]:
+            verdicts = {'dev': (v2[0], v2[1] + ' [second evaluation in the same environment]', ans)}
+            case['driver_line'] = line2
+            ok = ['dev']
+            path = save_replay(pid, case)
     if ok:
         v = verdicts[ok[0]]
         kind = 'panic' if v[1].startswith('panic') else ('hang' if v[1].startswith('hang') else 'wrong-result')
